@@ -89,6 +89,8 @@ func (*RefreshWorker).refresh
 
 func (*RefreshWorker).Shutdown
   requires workerOK(w)
+  // the worker is told to stop on every path, also when the final refresh fails
+  ensures stop_signalled: closes() == 1 && lastclosed() == w.done
   ensures no_refresh_unless_configured: !w.refrOnShutdown ==> events() == old(events()) && err == nil
   ensures final_refresh_once: w.refrOnShutdown ==> events() == old(events()) + 2 &&
     evis(old(events()) + 1, "github.com/AdguardTeam/golibs/service.Refresher.Refresh") && evarg("github.com/AdguardTeam/golibs/contextutil.Constructor.New", old(events()), 1) == ctx &&
